@@ -14,7 +14,7 @@ func OpenString(L *LState) int {
 	//_, ok := L.G.builtinMts[int(LTString)]
 	//if !ok {
 	mod = L.RegisterModule(StringLibName, strFuncs).(*LTable)
-	gmatch := L.NewClosure(strGmatch, L.NewFunction(strGmatchIter))
+	gmatch := L.NewFunction(strGmatch)
 	mod.RawSetString("gmatch", gmatch)
 	mod.RawSetString("gfind", gmatch)
 	// like lstrlib.c createmetatable: a metatable of its own whose __index is the string table
@@ -343,7 +343,7 @@ type strMatchData struct {
 }
 
 func strGmatchIter(L *LState) int {
-	md := L.CheckUserData(1).Value.(*strMatchData)
+	md := L.Get(UpvalueIndex(1)).(*LUserData).Value.(*strMatchData)
 	str := md.str
 	matches := md.matches
 	idx := md.pos
@@ -351,7 +351,6 @@ func strGmatchIter(L *LState) int {
 		return 0
 	}
 	md.pos += 1
-	L.Push(L.Get(1))
 	match := matches[idx]
 	if match.CaptureLength() == 2 {
 		L.Push(LString(str[match.Capture(0):match.Capture(1)]))
@@ -379,11 +378,11 @@ func strGmatch(L *LState) int {
 	if err != nil {
 		L.RaiseError(err.Error())
 	}
-	L.Push(L.Get(UpvalueIndex(1)))
+	// the iterator is a closure that carries its own state
 	ud := L.NewUserData()
 	ud.Value = &strMatchData{str, 0, mds}
-	L.Push(ud)
-	return 2
+	L.Push(L.NewClosure(strGmatchIter, ud))
+	return 1
 }
 
 func strLen(L *LState) int {
